@@ -58,7 +58,33 @@ notes={
  'C19':"before_and_after hook whose before part mutates the context and whose after part reads it",
  'C20':"retry stub: an attempt returns DeadlineExceeded and the policy wants to retry",
 }
+notes.update({
+ 'C01b':"in-flight table refactor: a call expires, the next call reuses its timer slot, then a late response for the expired id arrives: delivered to the other call",
+ 'C02b':"unmatched response read while the write side is Pending: dispatch returns Pending without a read waker; a later reply wakes nobody",
+ 'C03b':"guard drop reordered (cancel before close): needs the dispatch to run between the two steps while the abandoned call is queued behind the in-flight limit",
+ 'C04b':"cascade A->B->C: B's outbound client sink not ready at the poll that dequeues the nested call's cancellation: Cancel to C lost",
+ 'C05b':"deadline >= 2^32 ms (49.7 days) away: timer armed with timeout mod 2^32 ms (u32 truncation)",
+ 'C06b':"responses drained before expiry processing: a response buffered before the deadline is written by the first poll after it",
+ 'C07b':"Channel::call clamps the caller's deadline to context::current() (default now+10s): any deadline more than 10 s away is shortened",
+ 'C08b':"a request read and a response written in the same stream poll: the write arm wins and the read request is dropped un-offered",
+ 'C09b':"server: a write-path failure in the same poll that reads a fresh request is discarded",
+ 'C10b':"server: inbound side ended, last response written, poll_flush Pending at that moment: stream ends with the response unflushed",
+ 'C11b':"client: cancellation dequeued before the writability check; entry and timer never reclaimed under back-pressure",
+ 'C12b':"two excess requests readable in one poll at the limit: a double decrement of a local count admits the second",
+ 'C13b':"two keys: notifications polled before the listener and removed unconditionally: another key's stale notification erases a live entry",
+ 'C14b':"client: idle flush skipped when the in-flight map is empty: a just-written Cancel stays unflushed",
+ 'C15b':"ServerError.detail skipped when empty: not decodable under bincode",
+ 'C16b':"",
+ 'C17b':"methods with >= 11 arguments: server passes them in lexicographic order of generated names",
+ 'C18b':"under an OpenTelemetry layer the server reads the span's context before linking it to the transmitted one",
+ 'C19b':"before-hook lists of >= 3 hooks: `then` inserts after the head instead of appending",
+ 'C20b':"round-robin cursor folded back with a separate store after fetch_add: lost updates at the wrap under real threads",
+})
 strength={
+ 'C04b':"chain harness gained Gated hops (client-side sink made not-ready by a harness event)",
+ 'C06b':"time-based oracle C06-response-after-deadline; it then exposed D-C06b on the unchanged tree (fixed)",
+ 'C17b':"grid extended to arities 10, 11, 13 and an all-u8 type row",
+ 'C20b':"second loom plan: 2 threads x 4 calls + 1 over 2 backends at preemption bound 4 (an imbalance needs two racing wraps)",
  'C05':"new oracle C05-expiry-not-processed (caller woken after a dispatch poll past D+1ms); snap records wake masks",
  'C06':"duplicates with a shorter deadline (dup_deadline_ms) added to the C06 alphabet",
  'C08':"scripted cancels + burst delivery + clean id reuse after cancel/expiry added to the server alphabet",
@@ -68,7 +94,7 @@ strength={
  'C20':"retry grid now ranges over every RpcError kind, not only server errors",
 }
 for d in sorted(glob.glob(f'{V}/seeded/C*/meta.json')):
-    m=json.load(open(d)); pid=m['property']
+    m=json.load(open(d)); pid=os.path.basename(os.path.dirname(d))
     m['needs_to_manifest']=notes.get(pid,''); m['strengthening_triggered']=strength.get(pid,'')
     json.dump(m,open(d,'w'),indent=1)
     out.append(f"| {pid} | {'yes' if m.get('confirmed') else 'NO'} | {notes.get(pid,'')} | {m.get('checks_that_catch_it','')} | {m.get('checks_that_miss_it','')} | {strength.get(pid,'')} |")
